@@ -173,7 +173,7 @@ URLISH = ["/r/ready", "/r/ready?", "/r/ready#", "/r/ready;", "/r/ready?x=1", "/r
 OPS = ["store", "has", "fetch", "sync", "fetch_paths", "reopen", "has_absent", "fetch_absent", "fetch_paths_absent", "sync_other", "resync"]
 
 
-def gen_sequence(rng, n, paths, nkeys=13):
+def gen_sequence(rng, n, paths, nkeys=14):
     seq = []
     for _ in range(n):
         op = rng.choice(OPS)
@@ -189,7 +189,7 @@ def gen_sequence(rng, n, paths, nkeys=13):
 
 
 VALUES = ["text-é", "", b"\x00\xffbytes", b"", None, 7, [1, {"a": (2, 3)}], SM.Obj("o"), "crlf\r\nline\rend\n", b"\r\n\r",
-          SM.result_value("frame0"), SM.result_value("frame_labels"), SM.result_value("frame_named_index")]
+          SM.result_value("frame0"), SM.result_value("frame_labels"), SM.result_value("frame_named_index"), SM.result_value("frame_odd_names")]
 
 
 def _same(a, b):
